@@ -176,6 +176,17 @@ func sizingCMS(c *Ctx, eps, delta float64, skewed bool) {
 			bad++
 		}
 	}
+	// never-inserted keys: true count 0, so every estimate above eps*N is an over-estimate
+	badAbsent, absent := 0, 3000
+	for i := 0; i < absent; i++ {
+		if float64(s.Count([]byte(fmt.Sprintf("absent-%d-%d", c.seed, i)))) > eps*float64(total) {
+			badAbsent++
+		}
+	}
+	if overBudget(badAbsent, absent, delta) {
+		c.fail([]string{"C15"}, "cms-overestimate-above-budget", fmt.Sprintf("CountMinSketch(eps=%g,delta=%g,skewed=%v): %d of %d never-inserted keys estimated above eps*N", eps, delta, skewed, badAbsent, absent),
+			map[string]interface{}{"eps": eps, "delta": delta, "skewed": skewed, "seed": c.seed, "absent_keys": true})
+	}
 	c.op("stat.cms")
 	c.sample(map[string]interface{}{"cms": fmt.Sprintf("eps=%g delta=%g skewed=%v", eps, delta, skewed), "rows": s.GetRows(), "cols": s.GetColumns(), "fraction_over_eps": float64(bad) / float64(keys)})
 	if overBudget(bad, keys, delta) {
